@@ -4,6 +4,7 @@ import (
 	"bytes"
 	"context"
 	"fmt"
+	"os"
 	"reflect"
 	"strings"
 
@@ -536,6 +537,18 @@ func catalogue() []corruption {
 			*r.deps = d
 			return true
 		}},
+		{"deposit/first-one-repeated", true, func(s *sim, r *blockRefs, _ *stateBox) bool {
+			// the right number of deposits, every one of them the first
+			if len(*r.deps) < 2 {
+				return false
+			}
+			d := append(phase0.Deposits(nil), *r.deps...)
+			for i := range d {
+				d[i] = d[0]
+			}
+			*r.deps = d
+			return true
+		}},
 		{"deposit/last-one-twice", true, func(s *sim, r *blockRefs, _ *stateBox) bool {
 			if len(*r.deps) < 2 {
 				return false
@@ -779,7 +792,7 @@ func (s *sim) byzantine(parent *blockRec, blk *blockRec) {
 	// rare-state corruptions are tried first whenever the state allows them
 	var rare []corruption
 	for _, c := range cat {
-		if strings.HasSuffix(c.name, "of-withdrawable-validator") || c.name == "exit/too-young" || strings.HasSuffix(c.name, "under-current-version") || strings.HasSuffix(c.name, "-one-twice") {
+		if strings.HasSuffix(c.name, "of-withdrawable-validator") || c.name == "exit/too-young" || strings.HasSuffix(c.name, "under-current-version") || strings.HasSuffix(c.name, "-one-twice") || c.name == "deposit/first-one-repeated" {
 			rare = append(rare, c)
 		}
 	}
@@ -897,6 +910,9 @@ func (s *sim) verdicts(parent *blockRec, pm *refspec.State, variant common.SpecO
 	}); p != nil {
 		s.viol("C03", "panic/"+sigName+"/"+p.frame, fmt.Sprintf("%s: %s", what, p.val))
 		return
+	}
+	if os.Getenv("ZV_DEBUG") != "" {
+		fmt.Fprintf(os.Stderr, "verdict %s: model=%v zrnt=%v\n", what, merr, zerr)
 	}
 	slot := *refsOf(variant).slot
 	// A corrupted operation usually leaves the declared state root stale, so the final root
